@@ -340,7 +340,14 @@ pub fn oracle(ctx: &mut Ctx) {
             args.push((*rng.choose(&["86400", "18446744073709551615"])).into());
             st.count("never_expiring_timeout_flag");
         }
-        args.push("-q".into());
+        // the pool size never changes the bytes; neither does talking more (the log goes to standard error: with
+        // --stdout the stream still carries the file and nothing else)
+        if rng.chance(1, 6) {
+            args.push("--threads".into());
+            args.push((*rng.choose(&["1", "2", "4"])).into());
+            st.count("threads_flag");
+        }
+        if rng.chance(1, 8) { args.push("-v".into()); st.count("verbose_flag"); } else { args.push("-q".into()); }
         match route {
             6 => match stdin_dest {
                 1 => { args.push("--out".into()); args.push("out.png".into()); }
